@@ -143,6 +143,14 @@ WIRE_FIXED_32_TYPES = [TYPE_FLOAT, TYPE_FIXED32, TYPE_SFIXED32]
 WIRE_FIXED_64_TYPES = [TYPE_DOUBLE, TYPE_FIXED64, TYPE_SFIXED64]
 WIRE_LEN_DELIM_TYPES = [TYPE_STRING, TYPE_BYTES, TYPE_MESSAGE, TYPE_MAP]
 
+# The wire type each Proto 3 type is encoded with.
+WIRE_TYPE_BY_PROTO_TYPE = {
+    **{proto_type: WIRE_VARINT for proto_type in WIRE_VARINT_TYPES},
+    **{proto_type: WIRE_FIXED_32 for proto_type in WIRE_FIXED_32_TYPES},
+    **{proto_type: WIRE_FIXED_64 for proto_type in WIRE_FIXED_64_TYPES},
+    **{proto_type: WIRE_LEN_DELIM for proto_type in WIRE_LEN_DELIM_TYPES},
+}
+
 # Indicator of message delimitation in streams
 SIZE_DELIMITED = -1
 
@@ -566,16 +574,20 @@ def _dump_float(value: float) -> Union[float, str]:
     return value
 
 
-def load_varint(stream: "SupportsRead[bytes]") -> Tuple[int, bytes]:
+def load_varint(
+    stream: "SupportsRead[bytes]", first: bytes = b""
+) -> Tuple[int, bytes]:
     """
     Load a single varint value from a stream. Returns the value and the raw bytes read.
+    ``first`` is the first byte of the varint if the caller already took it from the stream.
     """
     result = 0
     raw = b""
     for shift in count(0, 7):
         if shift >= 64:
             raise ValueError("Too many bytes when decoding varint.")
-        b = stream.read(1)
+        b = first or stream.read(1)
+        first = b""
         if not b:
             raise EOFError("Stream ended unexpectedly while attempting to load varint.")
         raw += b
@@ -605,30 +617,42 @@ class ParsedField:
     raw: bytes
 
 
+def _read_exact(stream: "SupportsRead[bytes]", size: int) -> bytes:
+    data = stream.read(size)
+    if len(data) != size:
+        raise EOFError("Stream ended unexpectedly while attempting to load a field.")
+    return data
+
+
 def load_fields(stream: "SupportsRead[bytes]") -> Generator[ParsedField, None, None]:
     while True:
-        try:
-            num_wire, raw = load_varint(stream)
-        except EOFError:
+        first = stream.read(1)
+        if not first:
+            # The input ends at a field boundary.
             return
+        num_wire, raw = load_varint(stream, first)
         number = num_wire >> 3
         wire_type = num_wire & 0x7
+        if number == 0:
+            raise ValueError("Field number 0 is not valid.")
 
         decoded: Any = None
         if wire_type == WIRE_VARINT:
             decoded, r = load_varint(stream)
             raw += r
         elif wire_type == WIRE_FIXED_64:
-            decoded = stream.read(8)
+            decoded = _read_exact(stream, 8)
             raw += decoded
         elif wire_type == WIRE_LEN_DELIM:
             length, r = load_varint(stream)
-            decoded = stream.read(length)
+            decoded = _read_exact(stream, length)
             raw += r
             raw += decoded
         elif wire_type == WIRE_FIXED_32:
-            decoded = stream.read(4)
+            decoded = _read_exact(stream, 4)
             raw += decoded
+        else:
+            raise ValueError(f"Unsupported wire type {wire_type} for field {number}.")
 
         yield ParsedField(number=number, wire_type=wire_type, value=decoded, raw=raw)
 
@@ -1306,6 +1330,17 @@ class Message(ABC):
                 continue
 
             meta = proto_meta.meta_by_field_name[field_name]
+
+            if parsed.wire_type != WIRE_TYPE_BY_PROTO_TYPE[meta.proto_type] and not (
+                # repeated scalars may also arrive packed
+                parsed.wire_type == WIRE_LEN_DELIM
+                and meta.proto_type in PACKED_TYPES
+                and proto_meta.default_gen[field_name] is list
+            ):
+                # The wire type does not fit the declared type, so the value cannot
+                # be interpreted: keep it like a field we do not know.
+                self._unknown_fields += parsed.raw
+                continue
 
             value: Any
             if parsed.wire_type == WIRE_LEN_DELIM and meta.proto_type in PACKED_TYPES:
